@@ -406,3 +406,10 @@ From Kardia Require Import C20.SourceTie.
 Theorem C20_source_tie : C20_source_tie_statement.
 Proof. exact C20_source_tie_proof. Qed.
 Print Assumptions C20_source_tie.
+
+(** The decision-critical functions of the anchored code have exactly the decisions the source tie knows about
+    (go2coq manifests, regenerated from /repo on every check; statement in SourceManifest.v). *)
+From Kardia Require Import C20.SourceManifest.
+Theorem C20_source_manifest : C20_source_manifest_statement.
+Proof. exact C20_source_manifest_proof. Qed.
+Print Assumptions C20_source_manifest.
